@@ -35,7 +35,7 @@ func (S) Info() scen.Info {
 			"node/bindnode, schema, schema/dsl+dmt (LoadSchemaBytes), codecHelpers (Marshal/Unmarshal), codec/dagcbor, codec/dagjson": "real, one OS process per history and per reference operation",
 			"scheduler / faults": "none needed: the deciding dimension is the history inside one process",
 		},
-		QuickUnits: 2500, ThoroughUnits: 300000, QuickSecs: 240, ThoroughSecs: 1200,
+		QuickUnits: 4000, ThoroughUnits: 300000, QuickSecs: 240, ThoroughSecs: 1200,
 		ProbeKeys:    []string{"probe.repeat_same_type_inferred", "probe.repeat_same_type_explicit", "probe.shared_list_name_inferred", "probe.same_name_two_packages_inferred", "probe.explicit_after_inferred", "probe.fidelity_checked"},
 		EventsKey:    "events",
 		ShrinkBudget: 120,
